@@ -294,17 +294,20 @@ def main():
         else:
             cwd = Path.cwd()
 
+        # Detect hook event type (Claude Code only)
+        hook_event = input_data.get("hook_event_name", "PreToolUse")
+
         # Load config (fails hard on errors)
         try:
             config = load_config(cwd)
             configure_logging(config)
         except ConfigError as e:
             logging.error(f"Config error: {e}")
+            if hook_event == "PostToolUse":
+                # Feedback events are advisory: never emit a permission decision
+                return
             print(json.dumps(ask(f"config error: {e}")))
             return
-
-        # Detect hook event type (Claude Code only)
-        hook_event = input_data.get("hook_event_name", "PreToolUse")
 
         # Extract command based on mode
         # Cursor: {"command": "...", "cwd": "..."}
